@@ -331,7 +331,12 @@ class _FileModifyProxy:
             # shutil.copytree would create the destination directories.
             if os.path.exists(dst):
                 raise FileExistsError(errno.EEXIST, os.strerror(errno.EEXIST), dst)
-            for dirpath, _, filenames in os.walk(src):
+            ignore = kwargs.get("ignore")
+            for dirpath, dirnames, filenames in os.walk(src):
+                if ignore is not None:
+                    ignored = set(ignore(dirpath, dirnames + filenames))
+                    dirnames[:] = [d for d in dirnames if d not in ignored]
+                    filenames = [fn for fn in filenames if fn not in ignored]
                 for fn in filenames:
                     self.copy(
                         os.path.join(dirpath, fn),
@@ -491,6 +496,17 @@ class DocSync:
                     logger.more("Skipped keys: {}".format(", ".join(self.skipped_keys)))
 
 
+def _make_ignore(exclude):
+    """Return a shutil.copytree ignore function for the given exclude patterns."""
+    if not exclude:
+        return None
+
+    def ignore(path, names):
+        return [name for name in names if any(re.match(p, name) for p in exclude)]
+
+    return ignore
+
+
 def _sync_job_workspaces(
     src, dst, strategy, exclude, copy, copytree, recursive=True, deep=False, subdir=""
 ):
@@ -509,7 +525,7 @@ def _sync_job_workspaces(
         if os.path.isfile(fn_src):
             copy(fn_src, fn_dst)
         elif recursive:
-            copytree(fn_src, fn_dst)
+            copytree(fn_src, fn_dst, ignore=_make_ignore(exclude))
         else:
             logger.warning(f"Skip directory '{fn_src}'.")
     for fn in diff.diff_files:
@@ -810,6 +826,20 @@ def sync_projects(
     if doc_sync is None:
         doc_sync = DocSync.ByKey()
 
+    # The user's exclude patterns also apply to jobs that are cloned as a whole
+    # (sync_jobs extends a list argument in place, so take a copy here).
+    if exclude is None:
+        clone_ignore = None
+    else:
+        clone_ignore = _make_ignore(
+            list(exclude) if isinstance(exclude, list) else [exclude]
+        )
+
+    def _clone_copytree(src, dst):
+        if clone_ignore is None:
+            return proxy.copytree(src, dst)
+        return proxy.copytree(src, dst, ignore=clone_ignore)
+
     if (
         selection is not None
     ):  # The selection argument may be a jobs or job ids sequence.
@@ -852,7 +882,7 @@ def sync_projects(
     def _clone_or_sync(src_job):
         """Clone a job if it does not exist, or sync if it exists."""
         try:
-            destination.clone(src_job, copytree=proxy.copytree)
+            destination.clone(src_job, copytree=_clone_copytree)
             logger.more(f"Cloned job '{src_job}'.")
             return 1
         except DestinationExistsError:
